@@ -30,8 +30,13 @@ class App(protocol.Protocol):
         self.got = b""
         self.lost = 0
 
+    reenter = None      # (set by the harness) called once, while a segment is being handed over
+
     def dataReceived(self, d):
         self.got += d
+        if self.reenter is not None:
+            f, self.reenter = self.reenter, None
+            f()
 
     def connectionLost(self, reason):
         self.lost += 1
@@ -214,7 +219,13 @@ class Run(object):
     def step(self, e):
         a = e["a"]
         try:
-            if a in ("Deliver", "DeliverNested"):
+            if a == "DeliverReentrant":
+                # while the application is handed these bytes, its answer makes the peer's next bytes arrive
+                chunk = self.take(e["n"])
+                more = self.take(e["k"])
+                self.appf.built[0].reenter = lambda: self.proto.dataReceived(more)
+                self.proto.dataReceived(chunk)
+            elif a in ("Deliver", "DeliverNested"):
                 chunk = self.take(e["n"])
                 self.nest = e.get("k", 0)
                 try:
